@@ -35,7 +35,12 @@ def cases(tier, seed):
             o.update(feed_frac_reporting=1.0, feed_n_missing=0)
         if m == 5:
             o.update(feed_partial_above=0.5, feed_p_partial=0.9, mp=dict(beta=3))
-        out.append(dict(seed=seed, i=i, o=o, polls=(3 if i % 5 == 1 else 0)))
+        if i % 12 in (0, 7) and o["estimator"] != "bootstrap":
+            # grouping columns as integers (the unchanged bootstrap estimator cannot take them): district 2 sorts before
+            # district 10 as a number, after it as a string
+            o.update(int_key=True, district=True, feed_n_unexpected=0, must_aggregates=["district"],
+                     el_n_units=int(90 + i % 60))
+        out.append(dict(seed=seed, i=i, o=o, polls=(3 if i % 5 == 1 else 0), shared_feed=bool(i % 10 == 1)))
     return out
 
 
